@@ -1,4 +1,6 @@
 (* C18 — the modification-time shortcut never changes a result.
+   ROUND 2 (end of this file): THE COARSE CLOCK IS NOW PROVED TOO — a per-path invariant replaces the global one; the
+   paragraph below describes round 1.
    Only the property theorems; proofs in Proofs/C18Facts.v.
    PARTIAL: proved for the clock in which distinct writes carry distinct times (fine clock): under the
    disk invariant — which holds after every history (C07/C01) — the hash obtained through the shortcut from
@@ -10,7 +12,8 @@
    coherence it needs was violated by the repaired defect F4; it is decided by running every generated
    history twice (as is / table erased before every build) under both clocks on the implementation, with
    all four runs also compared with the model. *)
-From Ruler Require Import Bytes AList RuleSyntax TopoSort World Cmdlang Work Build Ops Inv InvFacts C18Facts.
+From Ruler Require Import Bytes AList RuleSyntax TopoSort World Cmdlang Work Build Ops Inv BuildSpec InvFacts C01Facts C18Facts
+     CoarseInv C18Coarse CoarseBuild C18CoarseFacts.
 
 Theorem C18_shortcut_returns_true_hash : forall (w : world sym) p assumed,
   disk_inv sym_eqb SContent w -> state_ok sym_eqb SContent w assumed ->
@@ -49,4 +52,80 @@ Theorem C18_any_sound_table : forall (w : world sym) x rp goal,
   o_commands o1 = o_commands o2 /\ o_status o1 = o_status o2.
 Proof. exact (c18_table_irrelevant sym sym_eqb SContent SList SRule sym_eqb_spec). Qed.
 
+(* ------------------------------------------------------------------------------------------------------
+   ANY CLOCK, IN PARTICULAR THE COARSE ONE (Proofs/CoarseInv.v, C18Coarse.v, CoarseBuild.v, C18CoarseFacts.v).
+   Under the coarse clock every write of one invocation carries the same time, so "equal times mean equal content"
+   is false; what holds is PER PATH: `coarse_inv` = the cache is content-addressed, every table entry is sound for
+   the file now at ITS path (if the shortcut would accept it, its hash is that file's hash), and between operations
+   the clock is strictly ahead of every file and every remembered time. It holds initially and after EVERY history
+   of the C01 alphabet whose builds run commands confined to their targets (C18_invariant_after_every_history, any
+   clock mode) — the repair of F4 (`forget_replaced`: what was remembered about a file ruler itself replaced by a
+   restore is dropped) is exactly what carries it through a build — and under it a build or clean with the saved
+   table and with the table erased give LITERALLY the same verdict, workspace, cache, histories, commands, status. *)
+Local Notation build_sym := (build sym_eqb SContent SList SRule).
+Local Notation run_sym ops w0 := (fold_left (fun w o => fst (apply_op sym_eqb SContent SList SRule w o)) ops w0).
+
+Theorem C18_shortcut_returns_true_hash_per_path : forall (w : world sym) p st,
+  state_ok_at sym_eqb SContent w p st ->
+  get_file_ticket sym_eqb SContent w p st = option_map (fun f => SContent (f_content f)) (fget w p).
+Proof. exact coarse_shortcut_transparent_sym. Qed.
+
+Theorem C18_any_clock : forall (w : world sym) rp goal,
+  coarse_inv sym_eqb SContent w ->
+  (forall w1 tbl pack, init_dir sym w = Ok (w1, tbl) -> get_nodes sym w1 rp goal = Ok pack ->
+                       Forall node_confined (p_nodes pack)) ->
+  let o1 := build_sym w rp goal in
+  let o2 := build_sym (erase_table sym w) rp goal in
+  o_verdict o1 = o_verdict o2 /\ w_files (o_world o1) = w_files (o_world o2) /\
+  rd_cache (w_rd (o_world o1)) = rd_cache (w_rd (o_world o2)) /\
+  rd_hist (w_rd (o_world o1)) = rd_hist (w_rd (o_world o2)) /\
+  o_commands o1 = o_commands o2 /\ o_status o1 = o_status o2.
+Proof. exact c18_coarse_sym. Qed.
+
+Theorem C18_any_clock_clean : forall (w : world sym) rp goal,
+  coarse_inv sym_eqb SContent w ->
+  let o1 := clean sym_eqb SContent w rp goal in
+  let o2 := clean sym_eqb SContent (erase_table sym w) rp goal in
+  o_verdict o1 = o_verdict o2 /\ w_files (o_world o1) = w_files (o_world o2) /\
+  rd_cache (w_rd (o_world o1)) = rd_cache (w_rd (o_world o2)) /\
+  rd_hist (w_rd (o_world o1)) = rd_hist (w_rd (o_world o2)) /\
+  o_commands o1 = o_commands o2 /\ o_status o1 = o_status o2.
+Proof. exact c18_coarse_clean_sym. Qed.
+
+Theorem C18_invariant_after_every_history : forall mode t0 (ops : list (op sym)),
+  0 < t0 -> confined_history sym sym_eqb SContent SList SRule (init_world mode t0) ops ->
+  coarse_inv sym_eqb SContent (run_sym ops (init_world mode t0)).
+Proof. exact coarse_inv_every_history_sym. Qed.
+
+(* hence the property under the coarse clock, after every history *)
+Theorem C18_coarse_clock_every_history : forall t0 (ops : list (op sym)) goal,
+  0 < t0 -> confined_history sym sym_eqb SContent SList SRule (init_world Coarse t0) ops ->
+  build_confined sym (run_sym ops (init_world Coarse t0)) goal ->
+  let w := run_sym ops (init_world Coarse t0) in
+  let o1 := build_sym w RULES_PATH goal in
+  let o2 := build_sym (erase_table sym w) RULES_PATH goal in
+  o_verdict o1 = o_verdict o2 /\ w_files (o_world o1) = w_files (o_world o2) /\
+  rd_cache (w_rd (o_world o1)) = rd_cache (w_rd (o_world o2)) /\
+  rd_hist (w_rd (o_world o1)) = rd_hist (w_rd (o_world o2)) /\
+  o_commands o1 = o_commands o2 /\ o_status o1 = o_status o2.
+Proof. exact c18_coarse_every_history_sym. Qed.
+
+(* the repair of F4 is what makes it true: the build WITHOUT `forget_replaced` (Build.build otherwise unchanged) violates
+   the very same statement under the coarse clock (counterexample by vm_compute: two copy rules whose sources are
+   exchanged and put back) *)
+Theorem C18_pre_repair_build_refuted :
+  ~ (forall (w : world sym) rp goal,
+       coarse_inv sym_eqb SContent w ->
+       (forall w1 tbl pack, init_dir sym w = Ok (w1, tbl) -> get_nodes sym w1 rp goal = Ok pack ->
+                            Forall node_confined (p_nodes pack)) ->
+       let o1 := legacy_build sym sym_eqb SContent SList SRule w rp goal in
+       let o2 := legacy_build sym sym_eqb SContent SList SRule (erase_table sym w) rp goal in
+       o_verdict o1 = o_verdict o2 /\ w_files (o_world o1) = w_files (o_world o2) /\
+       rd_cache (w_rd (o_world o1)) = rd_cache (w_rd (o_world o2)) /\
+       rd_hist (w_rd (o_world o1)) = rd_hist (w_rd (o_world o2)) /\
+       o_commands o1 = o_commands o2 /\ o_status o1 = o_status o2).
+Proof. exact c18_coarse_legacy_refuted. Qed.
+
 Check C18_fine.
+Check C18_any_clock.
+Check C18_coarse_clock_every_history.
